@@ -126,6 +126,11 @@ def apply_call(optic, op, a):
         optic.add_surface(index=a["i"] - 1, is_stop=bool(a["stop"]))
     elif op == "remove_surface":
         optic.surface_group.remove_surface(a["i"] - 1)
+    elif op == "reset":
+        optic.reset()
+        optic.set_aperture("EPD", 1.0)      # the settings new_optic() gives a fresh Optic
+        optic.set_field_type("angle")
+        optic.add_field(y=0)
     elif op == "save_load":
         from optiland.optic import Optic
         if a["how"] == "dict":
